@@ -389,8 +389,11 @@ class Interp:
             if isinstance(st, (ast.Assign, ast.AnnAssign)):
                 if isinstance(st, ast.AnnAssign) and st.value is None:
                     continue
-                v = self.eval(fi, st.value, env)  # type: ignore[arg-type]
                 targets = st.targets if isinstance(st, ast.Assign) else [st.target]
+                single = self._single_factor(fi, st.value, targets, env)  # type: ignore[arg-type]
+                if single:
+                    continue
+                v = self.eval(fi, st.value, env)  # type: ignore[arg-type]
                 for t in targets:
                     self.assign(fi, t, v, env)
                 continue
@@ -679,6 +682,25 @@ class Interp:
             return Lin(0, {"1/" + k: 1 / v})
         return None
 
+    def _single_factor(self, fi: FuncInfo, value: ast.AST, targets: List[ast.AST], env: Env) -> bool:
+        """`((base, exponent),) = unit.factors.items()` (also `[(base, exponent)] = ...`, `list(...)[0]`): the one factor of
+        a unit that is a power of a single base unit.  Exact when the unit's factor component is one atom to some power."""
+        if len(targets) != 1 or not isinstance(targets[0], (ast.Tuple, ast.List)) or len(targets[0].elts) != 1:
+            return False
+        inner = targets[0].elts[0]
+        if not (isinstance(inner, (ast.Tuple, ast.List)) and len(inner.elts) == 2 and all(isinstance(x, ast.Name) for x in inner.elts)):
+            return False
+        if not (isinstance(value, ast.Call) and isinstance(value.func, ast.Attribute) and value.func.attr == "items" and not value.args):
+            return False
+        g = self.eval(fi, value.func.value, env)
+        if not (isinstance(g, GroupV) and g.kind == "F" and len(g.mono) == 1):
+            return False
+        atom, e = g.mono[0]
+        tag = atom.split(":", 1)[1]
+        env[inner.elts[0].id] = UnitV(identity("P"), GroupV("F", ((f"F:{tag}", Lin(1)),)), GroupV("D", ((f"D:{tag}", Lin(1)),)))  # type: ignore[attr-defined]
+        env[inner.elts[1].id] = IntParam(f"exp:{tag}", e) if not e.is_const else IntParam(f"exp:{tag}", e)  # type: ignore[attr-defined]
+        return True
+
     # ---------------------------------------------------------- assignment
     def assign(self, fi: FuncInfo, t: ast.AST, v: AV, env: Env) -> None:
         if isinstance(t, ast.Name):
@@ -865,7 +887,19 @@ class Interp:
                     g.flags = set(g.flags) | {"selfkey"}
                     g.vec = True
                     return g
-            return OpaqueV("dict literal")
+            # {base: <integer expression>, ...}: a factor map written out
+            g2 = GroupV("F", (), {"simplified", "no_one"}, True)
+            for k_, v_ in zip(e.keys, e.values):
+                if k_ is None:
+                    return OpaqueV("dict literal")
+                kk, vv = self.eval(fi, k_, env), self.eval(fi, v_, env)
+                ll = self.as_lin(vv)
+                if ll is None and isinstance(vv, NumV):
+                    ll = self.rat_as_lin(vv.rat)
+                if not (isinstance(kk, UnitV) and not kk.p.mono and len(kk.f.mono) == 1 and ll is not None):
+                    return OpaqueV("dict literal")
+                g2 = GroupV("F", g2.mul(kk.f.pow(ll)).mono, set(g2.flags), True)
+            return g2
         if isinstance(e, ast.DictComp):
             return self.dictcomp(fi, e, env)
         if isinstance(e, (ast.GeneratorExp, ast.ListComp)):
@@ -1275,6 +1309,13 @@ class Interp:
                 if len(args) == 1:
                     return NumV(self.ln(x))
                 return NumV(self.ln(x) / self.ln(args[1].rat))  # type: ignore[union-attr]
+            if f.attr in ("log10", "log2") and len(args) == 1 and isinstance(args[0], NumV):
+                self.events.append(Event("log", e, {"arg": args[0], "func": fi.qual}))
+                return NumV(self.ln(args[0].rat) / self.ln(Rat.const(10 if f.attr == "log10" else 2)))
+            if f.attr == "log1p" and len(args) == 1 and isinstance(args[0], NumV):
+                one_plus = NumV(args[0].rat + Rat.const(1), args[0].ut)
+                self.events.append(Event("log", e, {"arg": one_plus, "func": fi.qual}))
+                return NumV(self.ln(one_plus.rat))
             return OpaqueV(f"math.{f.attr}")
         return self.dispatch(fi, e, env, None)
 
